@@ -198,6 +198,19 @@ PATTERN21_SRC = """if self.get('pattern_type') == 'stix':
         raise InvalidValueError(self.__class__, 'pattern', str(errors[0]))"""
 
 
+# the same two checks with the validator call guarded (a crash of the third-party validator is
+# re-raised as InvalidValueError): same outcome class for every pattern the model's oracle decides
+_GUARD = """try:
+    errors = run_validator(self.get('pattern'), %s)
+except Exception as exc:
+    raise InvalidValueError(self.__class__, 'pattern', str(exc)) from exc"""
+PATTERN20_SRC_GUARDED = PATTERN20_SRC.replace("errors = run_validator(self.get('pattern'), '2.0')", _GUARD % "'2.0'")
+PATTERN21_SRC_GUARDED = PATTERN21_SRC.replace(
+    "    errors = run_validator(self.get('pattern'), pat_ver)",
+    "\n".join("    " + l for l in (_GUARD % "pat_ver").split("\n")))
+assert PATTERN20_SRC_GUARDED != PATTERN20_SRC and PATTERN21_SRC_GUARDED != PATTERN21_SRC
+
+
 def _strlist(e):
     if isinstance(e, (ast.List, ast.Tuple)) and all(isinstance(x, ast.Constant) and isinstance(x.value, str) for x in e.elts):
         return [x.value for x in e.elts]
@@ -284,7 +297,9 @@ def _stmts(stmts, env):
         matched = False
         for src, term, n in ((SOCKET_SRC, "CSocketOptions", 2), (PROCESS_SRC, "CProcessExt", 1),
                              (LEGAL_HASH_SRC, None, 1), (PATTERN20_SRC, "(CPatternValidator V20)", 2),
-                             (PATTERN21_SRC, "(CPatternValidator V21)", 1)):
+                             (PATTERN21_SRC, "(CPatternValidator V21)", 1),
+                             (PATTERN20_SRC_GUARDED, "(CPatternValidator V20)", 2),
+                             (PATTERN21_SRC_GUARDED, "(CPatternValidator V21)", 1)):
             blk = "\n".join(ast.unparse(x) for x in stmts[i:i + n])
             if blk == src:
                 out.append(term if term else "LEGAL_HASHES_PLACEHOLDER")
@@ -494,6 +509,34 @@ def emit(tables, name, comment):
     out.append("(* string literals decoded once, at compile time *)")
     out.append("Definition %s : world := Eval vm_compute in %s_raw.\n" % (name, name))
     return "\n".join(out)
+
+
+def load_spec(verif_dir):
+    """The FROZEN specification tables: spec/stix_tables.json (seeded from the pinned tree, same
+    JSON shape as dump()) with spec/audited_overrides.json applied on top (entries certain from
+    the normative text)."""
+    import copy
+    t = json.load(open(os.path.join(verif_dir, "spec", "stix_tables.json")))
+    ov = json.load(open(os.path.join(verif_dir, "spec", "audited_overrides.json")))
+    for o in ov:
+        m = o["match"]
+        hit = 0
+        for cid, c in t["classes"].items():
+            if "ver" in m and c["ver"] != m["ver"]:
+                continue
+            if "class" in m and cid != m["class"]:
+                continue
+            for sl in c["slots"]:
+                if sl["name"] == m["slot"]:
+                    sl.update(copy.deepcopy(o["set"]))
+                    hit += 1
+        if not hit:
+            raise TranslateError("audited override matches nothing: %r" % (m,))
+    return t
+
+
+def emit_spec(verif_dir):
+    return emit(load_spec(verif_dir), "spec", "FROZEN specification tables of /verif/spec (not read from /repo)")
 
 
 if __name__ == "__main__":
